@@ -2,7 +2,8 @@
 import copy, json
 from vlib import common as C
 from vlib.diff import Case, differential
-from ._jwire import to_wire, from_wire, jeq, F64, Pairs
+from ._jwire import to_wire, from_wire, jeq, F64, Pairs, hx
+from . import _binn as B
 from . import _rfc as R
 from . import _jgen as G
 
@@ -219,8 +220,148 @@ def case_malformed(r):
     return c
 
 
+# ---- byte-level stream: the document goes in as binn BYTES and the holder's bytes come out (bpatch / bseq) ----
+
+def parse_bout(line):
+    """`<rc>[,<rc>...] <hex>` or `<rc>... scalar <wire>` -> (rcs, bytes | None, scalar value | None)"""
+    w = line.split()
+    rcs = w[0].split(",")
+    if len(w) >= 3 and w[1] == "scalar":
+        return rcs, None, from_wire(w[2:])
+    if len(w) != 2:
+        raise ValueError("unexpected answer " + line[:80])
+    return rcs, bytes.fromhex("" if w[1] == "-" else w[1]), None
+
+
+def make_byte_oracle(doc, inbytes, progs):
+    """RFC 6902 on decode(input bytes), program by program: an accepted program whose result the binary form can hold
+    must succeed and the bytes that come out must decode to the RFC result; one it cannot hold (key > 255 bytes, keys
+    equal ignoring ASCII case) must be refused with `creation`; a rejected program must report an error; whenever no
+    call succeeded the bytes must be exactly the bytes that went in."""
+    def oracle(out):
+        try:
+            rcs, got, scalar = parse_bout(out[0])
+        except ValueError as e:
+            return "[cls=bad-answer] %s" % e
+        if len(rcs) != len(progs):
+            return "[cls=bad-answer] %d return codes for %d patch documents" % (len(rcs), len(progs))
+        cur, changed = doc, False
+        for i, (ops, rc) in enumerate(zip(progs, rcs)):
+            if not isinstance(cur, (dict, list)):
+                return None                      # a scalar holder is outside the API's contract: nothing more to say
+            okk, exp, err = R.apply_patch(cur, ops)
+            if err and err[1] in UNSPEC:
+                return None
+            if okk:
+                if B.fits(exp):
+                    if rc != "ok":
+                        return "[cls=rejected] call %d: applicable patch was rejected with %s; RFC 6902 result %s" % (i, rc, json.dumps(exp, default=repr)[:200])
+                    cur, changed = exp, True
+                else:
+                    if rc == "ok":
+                        return "[cls=accepted-unholdable] call %d reported success but the binary form cannot hold %s" % (i, json.dumps(exp, default=repr)[:200])
+            else:
+                if rc == "ok":
+                    return "[cls=accepted-%s] call %d: operation %d (%s) must fail (%s) but the call reported success" % (
+                        err[1], i, err[0], json.dumps(ops[err[0]], default=repr)[:120], err[1])
+        if not changed:
+            if got != inbytes:
+                return "[cls=failed-patch-changed-bytes] no call succeeded (%s) but the holder's bytes changed: %s -> %s" % (
+                    ",".join(rcs), inbytes.hex()[:120], "scalar" if got is None else got.hex()[:120])
+            return None
+        if not isinstance(cur, (dict, list)):
+            return None if got is None and jeq(scalar, cur) else "[cls=wrong-result] holder %r, RFC 6902 prescribes the scalar %r" % (scalar if got is None else got.hex()[:80], cur)
+        if got is None:
+            return "[cls=wrong-result] holder is the scalar %r, RFC 6902 prescribes %s" % (scalar, json.dumps(cur, default=repr)[:200])
+        try:
+            val = B.dec(got)
+        except (B.BadBinn, IndexError, ValueError) as e:
+            return "[cls=bytes-malformed] the bytes that came out are not a well-formed document (%s): %s" % (e, got.hex()[:160])
+        if not jeq(val, cur):
+            return "[cls=wrong-result] the bytes decode to %s, RFC 6902 prescribes %s" % (json.dumps(val, default=repr)[:200], json.dumps(cur, default=repr)[:200])
+        return None
+    return oracle
+
+
+def byte_case(kind, r, mode, doc, progs):
+    inb = B.enc(doc, r if r.random() < 0.3 else None)       # sometimes wider integer / length fields than the writer's
+    if len(progs) == 1:
+        ln = "bpatch %s %s | %s" % (mode, hx(inb), to_wire(progs[0]))
+    else:
+        ln = "bseq %s %s | %s" % (mode, hx(inb), " | ".join(to_wire(p) for p in progs))
+    c = PCase(kind, [ln], make_byte_oracle(doc, inb, progs))
+    c.meta = ("b" + mode, doc, [o for p in progs for o in p])
+    return c
+
+
+def case_bytes(r):
+    mode = r.choice(["jbl", "json"])
+    doc = G.gen_doc(r, depth=r.choice([2, 3, 3, 4]), container=True)
+    ops, fail_at = G.gen_patch(r, doc, r.choice([1, 1, 2, 2, 3, 4, 5, 6, 8]), ext=r.random() < 0.25, fail_rate=0.12)
+    return byte_case("bytes" + ("-fail" if fail_at is not None else "-ok"), r, mode, doc, [ops])
+
+
+def case_bytes_seq(r):
+    """several patch documents applied to one holder one after the other; about a third of them fail"""
+    mode = r.choice(["jbl", "json"])
+    doc = G.gen_doc(r, depth=r.choice([2, 3]), container=True)
+    cur, progs = doc, []
+    for _ in range(r.randrange(2, 6)):
+        if not isinstance(cur, (dict, list)):
+            break
+        ops, _ = G.gen_patch(r, cur, r.choice([1, 1, 2, 3, 4]), ext=False, fail_rate=r.choice([0.0, 0.0, 0.4]), allow_root=False)
+        progs.append(ops)
+        okk, exp, err = R.apply_patch(cur, ops)
+        if okk and B.fits(exp):
+            cur = exp
+    if len(progs) < 2:
+        progs = progs + [[{"op": "test", "path": "", "value": copy.deepcopy(cur)}]]
+    return byte_case("bytes-seq", r, mode, doc, progs)
+
+
+def case_bytes_nofit(r):
+    """results the binary form cannot hold (a key over 255 bytes; two keys of one object equal ignoring ASCII case):
+    RFC 6902 accepts, the writer refuses at the very end - the bytes must stay; and the look-alikes it can hold"""
+    mode = r.choice(["jbl", "json"])
+    doc = G.gen_doc(r, depth=r.choice([2, 3]), container=True)
+    if not isinstance(doc, dict) or not doc or r.random() < 0.3:
+        doc = {"a": doc, "foo": {"ab": 1, "q": [1, {"x": 2}]}, "é": 0}
+    objs = [p for p in G.container_paths(doc) if isinstance(R.resolve(doc, list(p)), dict) and R.resolve(doc, list(p))]
+    p = r.choice(objs)
+    o = R.resolve(doc, list(p))
+    k = r.choice(list(o))
+    twin = r.choice([k.upper(), k.upper(), k.capitalize(), k + "X"])       # "É" is not an ASCII-case twin of "é": it fits
+    ops = []
+    c = r.randrange(8)
+    if c == 0:
+        ops.append({"op": "add", "path": G.ptr(p + (twin,)), "value": G.scalar(r)})
+    elif c == 1:
+        ops.append({"op": "copy", "from": G.ptr(p + (k,)), "path": G.ptr(p + (twin,))})
+    elif c == 2:
+        ops.append({"op": "add", "path": G.ptr(p + ("zz",)), "value": {"kk": 1, r.choice(["KK", "Kk", "kK", "kk2"]): [2]}})
+    elif c == 3:
+        ops.append({"op": "add", "path": G.ptr(p + ("L" * r.choice([254, 255, 256, 257, 300]),)), "value": 1})
+    elif c == 4:
+        ops.append({"op": "replace", "path": G.ptr(p + (k,)), "value": {"w" * r.choice([255, 256]): None}})
+    elif c == 5:      # the offending member is gone again before the document is encoded: must succeed
+        ops.append({"op": "add", "path": G.ptr(p + (twin,)), "value": 7})
+        if r.random() < 0.7:
+            ops.append({"op": "remove", "path": G.ptr(p + (twin,))})
+        else:
+            ops.append({"op": "test", "path": G.ptr(p + (twin,)), "value": 7})
+    elif c == 6:
+        ops.append({"op": "move", "from": G.ptr(p + (k,)), "path": G.ptr(p + (twin,))})      # the twin replaces k: holdable
+    else:
+        ops.append({"op": "add", "path": G.ptr(p + (twin,)), "value": 1})
+        ops.append({"op": "remove", "path": G.ptr(p + (k,))})                                 # only the twin is left: holdable
+    if r.random() < 0.3:
+        more, _ = G.gen_patch(r, doc, r.choice([1, 2]), ext=False, fail_rate=0.0, allow_root=False)
+        ops = more + ops
+    return byte_case("bytes-nofit", r, mode, doc, [ops])
+
+
 GENS = [(lambda r: case_patch(r, False, "rfc"), 6), (lambda r: case_patch(r, True, "ext"), 3), (case_same_array, 3),
-        (case_dialect, 0.15), (case_malformed, 1.2)]
+        (case_dialect, 0.15), (case_malformed, 1.2), (case_bytes, 2.5), (case_bytes_seq, 0.8), (case_bytes_nofit, 0.5)]
 
 
 def gen_cases(r, n):
@@ -265,7 +406,10 @@ def tally(ctx, cases):
                             if p == "":
                                 ctx.hist("ptr:root")
         if c.impl:
-            ctx.hist("rc:" + c.impl[0].split()[0])
+            for rc in c.impl[0].split()[0].split(",")[:8]:
+                ctx.hist("rc:" + rc)
+            if c.kind.startswith("bytes"):
+                ctx.hist("bytes-out:" + ("scalar" if " scalar " in c.impl[0] else "unchanged" if c.impl[0].split()[-1] == c.ops[0].split()[2] else "new"))
 
 
 CHUNK = 1000
